@@ -1454,7 +1454,9 @@ def evaluate__parse_xml(self: XPathFunction, context: ta.ContextType = None) \
             root = etree.XML(defuse_xml(arg.encode('utf-8')), xml_parser)
         else:
             root = etree.XML(arg.encode('utf-8'), xml_parser)
-    except etree.ParseError:
+    except (etree.ParseError, LookupError, ValueError):
+        # LookupError/ValueError: the XML declaration names an encoding that
+        # the byte parser does not know or does not support (multi-byte codecs)
         raise self.error('FODC0006')
     else:
         return cast(DocumentNode, get_node_tree(etree.ElementTree(root), self.parser.namespaces))
